@@ -4,9 +4,6 @@ set -e
 cd "$(dirname "$0")"
 /venv/bin/python -c "import hypothesis" 2>/dev/null || \
   /venv/bin/pip install -q --no-index --find-links /opt/veriftools/wheels hypothesis
-if [ ! -d .deps/atheris ]; then
-  /venv/bin/pip install -q --no-index --find-links /opt/veriftools/wheels --target .deps atheris || \
-    echo "atheris not installable: the C15 fuzz campaign will be skipped (stated in its evidence)"
-fi
+# (no registered target uses atheris: it is not installed - see DESIGN.md 10.6)
 mkdir -p evidence replays
 /venv/bin/python -c "import sys; sys.path.insert(0, '.'); import vlib.core, clustersim.world; print('setup ok')"
